@@ -257,6 +257,9 @@ def random_real_mesh(rng, curve_name, n_ops, max_aspect=32.0, time_grid=None):
     from src.mesh import MeshParametrized
     gamma = make_curve(curve_name)
     with contextlib.redirect_stdout(io.StringIO()):
+        if time_grid is None and rng.random() < 0.3:
+            # user-supplied initial time grids with slabs of different lengths (equal refinement levels, different sizes)
+            time_grid = rng.choice([[0, 1, 3], [0, 0.25, 1, 1.5], [0, 0.5, 1]])
         mesh = MeshParametrized(gamma, initial_time_mesh=time_grid or [0, 1])
         if curve_name == 'LShape':
             for e in list(mesh.leaf_elements):
